@@ -2,7 +2,7 @@
 import ast
 from .core import *
 
-PRIMS = {'int': INT, 'bool': BOOL, 'float': REAL, 'str': STR, 'None': NONE, 'Any': ANY, 'object': ANY}
+PRIMS = {'int': INT, 'bool': BOOL, 'float': REAL, 'str': STR, 'None': NONE, 'Any': ANY, 'object': ANY, 'fp64': FP64}
 
 
 class TypeSys:
@@ -149,6 +149,8 @@ class TypeSys:
         for c in self.ct.mro(cname):
             if (c, fname) in ft:
                 return ft[(c, fname)]
+        if (cname, fname) in ft:      # external class (not in the class table): declared fields only
+            return ft[(cname, fname)]
         if ('*', fname) in ft:
             return ft[('*', fname)]
         fa = self.ct.field_annotation(cname, fname)
